@@ -242,13 +242,16 @@ int main(int argc, char** argv) {
         auto bytes = read_file(replay);
         Ctx c;
         Res r = execute(bytes, c, true);
-        std::cout << "CASE " << c.desc.substr(0, 4000) << "\n";
+        // (printf, not std::cout: harnesses may silence the C++ streams the repository logs to)
+        std::printf("CASE %s\n", c.desc.substr(0, 4000).c_str());
         if (r == Res::Fail) {
-            std::cout << "RESULT fail signature=" << g.fail_sig << "\nMESSAGE " << g.fail_msg << "\n";
+            std::printf("RESULT fail signature=%s\nMESSAGE %s\n", g.fail_sig.c_str(), g.fail_msg.c_str());
+            std::fflush(stdout);
             return 2;
         }
-        if (r == Res::Excluded) { std::cout << "RESULT excluded\n"; return 0; }
-        std::cout << "RESULT pass nontrivial=" << (c.nontrivial ? 1 : 0) << "\n";
+        if (r == Res::Excluded) { std::printf("RESULT excluded\n"); std::fflush(stdout); return 0; }
+        std::printf("RESULT pass nontrivial=%d\n", c.nontrivial ? 1 : 0);
+        std::fflush(stdout);
         return 0;
     }
 
@@ -266,7 +269,7 @@ int main(int argc, char** argv) {
             g.fail_desc = "run_once (exhaustive part): " + c.desc.substr(0, 2000);
             g.fail_tape = "";
             dump_stats();
-            std::cerr << "FAIL(once) " << f.signature << ": " << f.message << "\n";
+            std::fprintf(stderr, "FAIL(once) %s: %s\n", f.signature.c_str(), f.message.c_str());
             return 2;
         } catch (const CaseExcluded&) {
         }
@@ -332,7 +335,7 @@ extern "C" int LLVMFuzzerTestOneInput(const std::uint8_t* data, std::size_t size
     if (r == Res::Fail) {
         save_failure(bytes);
         dump_stats();
-        std::cerr << "VERIF-FAIL " << g.fail_sig << ": " << g.fail_msg << "\n";
+        std::fprintf(stderr, "VERIF-FAIL %s: %s\n", g.fail_sig.c_str(), g.fail_msg.c_str());
         __builtin_trap();
     }
     return 0;
